@@ -145,7 +145,7 @@ NP_DTYPE = {"f8": "float64", "f4": "float32", "i8": "int64", "i4": "int32"}
 # which in float32 is outside "exact rational arithmetic" (ASSUMPTIONS)
 F4_OPS = ("pad", "trunc", "tab", "concat", "iseg", "slide")
 PANEL_OPS = ("pad", "trunc", "tab", "concat", "paa", "iseg", "slide", "interp", "rife", "rowprim", "rowser")
-SERIES_OPS = ("impute", "acf", "cos", "adapt")
+SERIES_OPS = ("impute", "imputef", "acf", "cos", "adapt")
 
 
 def col_dtype(dtype, j):
@@ -264,6 +264,47 @@ def is_rect(panel):
     return len({len(c) for inst in panel for c in inst}) <= 1
 
 
+# ----------------------------------------------------------------------------- transformer objects and their history
+# CT[op] = (class loader, kwargs(case), fit data(case), transform data(case)).  A case may carry "hist": another case
+# of the same op.  The object is then NOT fresh: it is constructed with the other case's parameters, fitted on (and
+# applied to) the other case's data, re-parameterised with set_params(<this case's parameters>) and only then fitted
+# on this case's data.  What it returns must be what a fresh object returns (= the closed form for the NEW
+# parameters and panel), so model and oracle never look at the history.
+CT = {}
+
+
+def _panel_arg(key):
+    return lambda c: build(c[key], c["kind"], c.get("t0", 0), dtype=c.get("dtype", "f8"))
+
+
+def obtain(c):
+    loader, kw, fitx, trx = CT[c["op"]]
+    cls = loader()
+    h = c.get("hist")
+    if h:
+        try:
+            t = cls(**kw(h))
+        except Exception:
+            t = None           # the other parameters are rejected by the constructor: no history possible
+        if t is not None:
+            try:
+                t.fit(fitx(h))
+                t.transform(trx(h))
+            except Exception:
+                pass           # a failed earlier use is a history too
+            t.set_params(**kw(c))
+            return t
+    return cls(**kw(c))
+
+
+def fit_transform(c):
+    """obtain(c).fit(fit data).transform(transform data)"""
+    _, _, fitx, trx = CT[c["op"]]
+    t = obtain(c)
+    t.fit(fitx(c))
+    return t.transform(trx(c))
+
+
 # ----------------------------------------------------------------------------- padding
 def pad_line(c):
     return "C14 pad %s %s %s %s %s" % (c["kind"], oint(c["pad_length"]), show_rat(c["fill"]),
@@ -271,13 +312,19 @@ def pad_line(c):
 
 
 def pad_real(c):
-    from sktime.transformations.panel.padder import PaddingTransformer
+    return guarded(lambda: show_panel(nested_out(fit_transform(c))))
 
-    def f():
-        t = PaddingTransformer(pad_length=c["pad_length"], fill_value=NAN if c["fill"] is None else c["fill"])
-        t.fit(build(c["xfit"], c["kind"], c.get("t0", 0), dtype=c.get("dtype", "f8")))
-        return show_panel(nested_out(t.transform(build(c["x"], c["kind"], c.get("t0", 0), dtype=c.get("dtype", "f8")))))
-    return guarded(f)
+
+def _cls(mod, name):
+    def load():
+        import importlib
+        return getattr(importlib.import_module(mod), name)
+    return load
+
+
+CT["pad"] = (_cls("sktime.transformations.panel.padder", "PaddingTransformer"),
+             lambda c: dict(pad_length=c["pad_length"], fill_value=NAN if c["fill"] is None else c["fill"]),
+             _panel_arg("xfit"), _panel_arg("x"))
 
 
 def pad_oracle(c, out):
@@ -291,7 +338,7 @@ def pad_oracle(c, out):
     fill = None if c["fill"] is None else Fr(c["fill"])       # None = NaN
     want = [[s + [fill] * (L - len(s)) for s in inst] for inst in x]
     if out.startswith("E:"):
-        if c["kind"] == "A":
+        if c["kind"] == "A" and out == "E:attr":
             return [("pad:array-cells-rejected", "valid nested DataFrame with ndarray cells rejected: " + out)]
         return [("pad:valid-rejected", "paddable panel rejected: " + out)]
     got = parse_panel(out)
@@ -355,13 +402,11 @@ def trunc_line(c):
 
 
 def trunc_real(c):
-    from sktime.transformations.panel.truncation import TruncationTransformer
+    return guarded(lambda: show_panel(nested_out(fit_transform(c))))
 
-    def f():
-        t = TruncationTransformer(lower=c["lower"], upper=c["upper"])
-        t.fit(build(c["xfit"], c["kind"], c.get("t0", 0), dtype=c.get("dtype", "f8")))
-        return show_panel(nested_out(t.transform(build(c["x"], c["kind"], c.get("t0", 0), dtype=c.get("dtype", "f8")))))
-    return guarded(f)
+
+CT["trunc"] = (_cls("sktime.transformations.panel.truncation", "TruncationTransformer"),
+               lambda c: dict(lower=c["lower"], upper=c["upper"]), _panel_arg("xfit"), _panel_arg("x"))
 
 
 def trunc_oracle(c, out):
@@ -378,7 +423,7 @@ def trunc_oracle(c, out):
         return []        # the requested range does not exist in every series: nothing demanded
     want = [[s[a:b] for s in inst] for inst in x]
     if out.startswith("E:"):
-        if c["kind"] == "A":
+        if c["kind"] == "A" and out == "E:attr":
             return [("trunc:array-cells-rejected", "valid nested DataFrame with ndarray cells rejected: " + out)]
         return [("trunc:valid-rejected", "range [%d,%d) exists in every series but input rejected: %s" % (a, b, out))]
     got = parse_panel(out)
@@ -436,17 +481,16 @@ def tab_line(c):
 
 
 def tab_real(c):
-    from sktime.transformations.panel.reduce import Tabularizer
-    from sktime.transformations.panel.compose import ColumnConcatenator
-
     def f():
-        X = build(c["x"], c["kind"], c.get("t0", 0), dtype=c.get("dtype", "f8"))
+        r = fit_transform(c)
         if c["op"] == "tab":
-            r = Tabularizer().fit(X).transform(X)
             return show_table(np.asarray(r, dtype="float64").tolist())
-        r = ColumnConcatenator().fit(X).transform(X)
         return show_panel(nested_out(r))
     return guarded(f)
+
+
+CT["tab"] = (_cls("sktime.transformations.panel.reduce", "Tabularizer"), lambda c: {}, _panel_arg("x"), _panel_arg("x"))
+CT["concat"] = (_cls("sktime.transformations.panel.compose", "ColumnConcatenator"), lambda c: {}, _panel_arg("x"), _panel_arg("x"))
 
 
 def tab_oracle(c, out):
@@ -522,12 +566,11 @@ def paa_line(c):
 
 
 def paa_real(c):
-    from sktime.transformations.panel.dictionary_based._paa import PAA
+    return guarded(lambda: show_panel(nested_out(fit_transform(c))))
 
-    def f():
-        X = build(c["x"], c["kind"], c.get("t0", 0), dtype=c.get("dtype", "f8"))
-        return show_panel(nested_out(PAA(num_intervals=c["k"]).fit(X).transform(X)))
-    return guarded(f)
+
+CT["paa"] = (_cls("sktime.transformations.panel.dictionary_based._paa", "PAA"), lambda c: dict(num_intervals=c["k"]),
+             _panel_arg("x"), _panel_arg("x"))
 
 
 def frame_means(xs, k):
@@ -611,16 +654,18 @@ def iseg_line(c):
     return "C14 iseg %s %s %s" % (t, show_panel(c["xfit"]), show_panel(c["x"]))
 
 
-def iseg_real(c):
-    from sktime.transformations.panel.segment import IntervalSegmenter
+def _iseg_kw(c):
+    iv = c["intervals"]
+    if isinstance(iv, list) and c.get("as_array", True):
+        iv = np.array(iv, dtype="int64")
+    return dict(intervals=iv)
 
-    def f():
-        iv = c["intervals"]
-        if isinstance(iv, list) and c.get("as_array", True):
-            iv = np.array(iv, dtype="int64")
-        t = IntervalSegmenter(intervals=iv).fit(build(c["xfit"], c["kind"], c.get("t0", 0), dtype=c.get("dtype", "f8")))
-        return show_panel(nested_out(t.transform(build(c["x"], c["kind"], c.get("t0", 0), dtype=c.get("dtype", "f8")))))
-    return guarded(f)
+
+def iseg_real(c):
+    return guarded(lambda: show_panel(nested_out(fit_transform(c))))
+
+
+CT["iseg"] = (_cls("sktime.transformations.panel.segment", "IntervalSegmenter"), _iseg_kw, _panel_arg("xfit"), _panel_arg("x"))
 
 
 def iseg_oracle(c, out):
@@ -722,12 +767,11 @@ def slide_line(c):
 
 
 def slide_real(c):
-    from sktime.transformations.panel.segment import SlidingWindowSegmenter
+    return guarded(lambda: show_panel(nested_out(fit_transform(c))))
 
-    def f():
-        X = build(c["x"], c["kind"], c.get("t0", 0), dtype=c.get("dtype", "f8"))
-        return show_panel(nested_out(SlidingWindowSegmenter(window_length=c["w"]).fit(X).transform(X)))
-    return guarded(f)
+
+CT["slide"] = (_cls("sktime.transformations.panel.segment", "SlidingWindowSegmenter"), lambda c: dict(window_length=c["w"]),
+               _panel_arg("x"), _panel_arg("x"))
 
 
 def slide_oracle(c, out):
@@ -782,12 +826,11 @@ def interp_line(c):
 
 
 def interp_real(c):
-    from sktime.transformations.panel.interpolate import TSInterpolator
+    return guarded(lambda: show_panel(nested_out(fit_transform(c))))
 
-    def f():
-        X = build(c["x"], c["kind"], c.get("t0", 0), dtype=c.get("dtype", "f8"))
-        return show_panel(nested_out(TSInterpolator(c["length"]).fit(X).transform(X)))
-    return guarded(f)
+
+CT["interp"] = (_cls("sktime.transformations.panel.interpolate", "TSInterpolator"), lambda c: dict(length=c["length"]),
+                _panel_arg("x"), _panel_arg("x"))
 
 
 def lin_resample(s, L):
@@ -811,7 +854,7 @@ def interp_oracle(c, out):
     if any(len(s) < 2 for inst in x for s in inst):
         return []
     if out.startswith("E:"):
-        if c["kind"] == "A":
+        if c["kind"] == "A" and out == "E:attr":
             return [("interp:array-cells-rejected", "valid nested DataFrame with ndarray cells rejected: " + out)]
         return [("interp:valid-rejected", out)]
     got = parse_panel(out)
@@ -868,6 +911,8 @@ def onone(v):
 
 def impute_line(c):
     m = c["method"] if c["method"] in METHODS else "unknown"
+    if "zs" in c:
+        return "C14 imputef %s %s %s %s" % (m, onone(c["value"]), onone(c["mv"]), ";".join(show_oseries(col) for col in c["zs"]))
     return "C14 impute %s %s %s %s" % (m, onone(c["value"]), onone(c["mv"]), show_oseries(c["z"]))
 
 
@@ -877,15 +922,28 @@ def _series(z, i0=0, dtype="f8"):
     return pd.Series([NAN if v is None else float(v) for v in z], index=pd.RangeIndex(i0, i0 + len(z)), dtype="float64")
 
 
-def impute_real(c):
-    from sktime.transformations.series.impute import Imputer
+def _impute_data(c):
+    if "zs" in c:          # a frame: one column per series
+        return pd.DataFrame({"c%d" % j: _series(col, c.get("i0", 0), c.get("dtype", "f8")) for j, col in enumerate(c["zs"])})
+    return _series(c["z"], c.get("i0", 0), c.get("dtype", "f8"))
 
+
+def impute_real(c):
     def f():
-        z = _series(c["z"], c.get("i0", 0), c.get("dtype", "f8"))
-        zt = Imputer(method=c["method"], value=c["value"], missing_values=c["mv"]).fit_transform(z)
+        z = _impute_data(c)
+        zt = fit_transform(c)
         pre = "" if list(zt.index) == list(z.index) else "INDEX-CHANGED:"
+        if "zs" in c:
+            if not isinstance(zt, pd.DataFrame) or zt.shape[1] != len(c["zs"]):
+                return "COLUMNS-CHANGED"
+            return pre + ";".join(show_oseries(zt.iloc[:, j].tolist()) for j in range(zt.shape[1]))
         return pre + show_oseries(zt.tolist())
     return guarded(f)
+
+
+CT["impute"] = (_cls("sktime.transformations.series.impute", "Imputer"),
+                lambda c: dict(method=c["method"], value=c["value"], missing_values=c["mv"]), _impute_data, _impute_data)
+CT["imputef"] = CT["impute"]
 
 
 def _ols_line(ys):
@@ -906,8 +964,31 @@ def _ffill(z):
 
 
 def impute_oracle(c, out):
+    """frames: the rule column by column"""
+    if "zs" not in c:
+        return impute_oracle1(c, out)
+    m, value, mv = c["method"], c["value"], c["mv"]
+    if m not in METHODS or (value is not None) != (m == "constant"):
+        return []
+    if out.startswith("E:") or out.startswith("INDEX") or out.startswith("COLUMNS"):
+        if any(all(v is None or (mv is not None and v == mv) for v in col) for col in c["zs"]):
+            return []       # a column without any observation: nothing demanded
+        return [("impute:frame:rejected-or-reshaped", "%s: %s" % (m, out))]
+    outs = out.split(";")
+    if len(outs) != len(c["zs"]):
+        return [("impute:frame:columns", out)]
+    fails = []
+    for j, (col, o) in enumerate(zip(c["zs"], outs)):
+        for k, msg in impute_oracle1(dict(c, z=col), o):
+            fails.append((k, "column %d: %s" % (j, msg)))
+    return fails
+
+
+def impute_oracle1(c, out):
     """for single series the chosen imputation rule: observed values stay, every missing value (NaN and
-    every occurrence of `missing_values`) is replaced by what the rule says where the rule says something"""
+    every occurrence of `missing_values`) is replaced by what the rule says; a directional or interpolating rule
+    fills what it can reach and the values left at an edge are filled from the other side, so the output has no
+    missing value as soon as one value is observed"""
     m, value, mv = c["method"], c["value"], c["mv"]
     if m not in METHODS or (value is not None) != (m == "constant") or not c["z"]:
         return []
@@ -951,6 +1032,14 @@ def impute_oracle(c, out):
                     want[i] = a + (b - a) * Fr(i - j, k - j)
                 else:
                     want[i] = a if i - j < k - i else b if i - j > k - i else (a, b)   # tie: either
+    if m in ("ffill", "pad", "bfill", "backfill", "linear", "nearest"):
+        # the edges the rule cannot reach: before the first observation the first observed value, after the last
+        # observation the last observed value
+        first_i, first_v = valid[0]
+        last_i, last_v = valid[-1]
+        for i in range(n):
+            if z[i] is None and want[i] is None:
+                want[i] = first_v if i < first_i else last_v if i > last_i else None
     elif m == "drift":
         filled = _ffill(z)
         filled = _ffill(filled[::-1])[::-1]
@@ -967,9 +1056,13 @@ def impute_oracle(c, out):
                     hf = _ffill(z); hf = _ffill(hf[::-1])[::-1]
                     if all(g is not None and close(float(g), h) for g, h in zip(got, hf)):
                         return [("impute:drift:no-trend-values", "missing values got ffill/bfill values, not the fitted trend: %s (trend %s)" % (out, show_oseries([float(w) for w in want])))]
-                fails.append(("impute:%s:values" % ("ffill" if m == "pad" else "bfill" if m == "backfill" else m),
-                              "position %d: got %s want %s in %s" % (i, got[i], alts, out)))
+                mm = "ffill" if m == "pad" else "bfill" if m == "backfill" else m
+                edge = i < valid[0][0] or i > valid[-1][0]
+                fails.append(("impute:%s:%s" % (mm, "edge-values" if edge else "values"),
+                              "position %d: got %s want %s in %s" % (i, "nan" if got[i] is None else got[i], "/".join(str(a) for a in alts), out)))
                 break
+    if not fails and any(g is None for g in got):
+        fails.append(("impute:%s:missing-value-left" % m, "an observed value exists but the output still has NaN: %s" % out))
     return fails
 
 
@@ -1000,10 +1093,27 @@ def impute_gen(tier, rng):
             m, value = rng.choice([("mean", 1.0), ("constant", None), ("spline9", None), ("ffill", 0.0)])
         cases.append({"op": "impute", "method": m, "value": value, "mv": mv, "z": z, "i0": rng.choice([0, 0, 5, -3])})
     cases.append({"op": "impute", "method": "mean", "value": None, "mv": None, "z": [], "i0": 0})
+    # frames: the rule column by column; columns with missing values at different edges, placeholders
+    for _ in range(90 if tier == "quick" else 1200):
+        n, nc = rng.randrange(1, 13), rng.randrange(2, 4)
+        m = rng.choice(METHODS)
+        mv = rng.choice([None, None, None, 0.0, -999.0, 3.0])
+        zs = []
+        for j in range(nc):
+            pm = rng.choice([0.2, 0.5, 0.8])
+            col = [None if rng.random() < pm else float(rng.randrange(-4, 9)) for _ in range(n)]
+            if rng.random() < 0.9 and all(v is None for v in col):
+                col[rng.randrange(n)] = float(rng.randrange(1, 5))
+            if mv is not None:
+                col = [float(mv) if (v is None or rng.random() < 0.1) else v for v in col]
+            zs.append(col)
+        cases.append({"op": "imputef", "method": m, "value": dyadic(rng, -8, 8, 2) if m == "constant" else None, "mv": mv,
+                      "zs": zs, "i0": rng.choice([0, 0, 5])})
     return cases
 
 
 OPS["impute"] = dict(line=impute_line, real=impute_real, oracle=impute_oracle, gen=impute_gen)
+OPS["imputef"] = dict(line=impute_line, real=impute_real, oracle=impute_oracle, gen=lambda tier, rng: [])
 
 
 # ----------------------------------------------------------------------------- RandomIntervalFeatureExtractor
@@ -1030,13 +1140,9 @@ def rife_line(c):
 
 
 def rife_real(c):
-    from sktime.transformations.panel.summarize import RandomIntervalFeatureExtractor
-
     def f():
         X = build(c["x"], c["kind"], c.get("t0", 0), dtype=c.get("dtype", "f8"))
-        t = RandomIntervalFeatureExtractor(n_intervals=c["n_intervals"], min_length=c.get("min_length"),
-                                           max_length=c.get("max_length"), features=_features(c["feats"]),
-                                           random_state=c["seed"])
+        t = obtain(c)
         try:
             t.fit(X)
         except Exception as e:
@@ -1160,6 +1266,10 @@ def rife_gen(tier, rng):
     return cases
 
 
+CT["rife"] = (_cls("sktime.transformations.panel.summarize", "RandomIntervalFeatureExtractor"),
+              lambda c: dict(n_intervals=c["n_intervals"], min_length=c.get("min_length"), max_length=c.get("max_length"),
+                             features=_features(c["feats"]), random_state=c["seed"]),
+              _panel_arg("x"), _panel_arg("x"))
 OPS["rife"] = dict(line=rife_line, real=rife_real, oracle=rife_oracle, gen=rife_gen)
 
 
@@ -1204,18 +1314,24 @@ def row_line(c):
     return "C14 rowser %s %s" % (fn, show_panel(c["x"]))
 
 
-def row_real(c):
-    from sktime.transformations.panel.compose import SeriesToPrimitivesRowTransformer, SeriesToSeriesRowTransformer
+def _mean_transformer():
     from sktime.transformations.series.summarize import MeanTransformer
+    return MeanTransformer()
 
+
+def row_real(c):
     def f():
-        X = build(c["x"], c["kind"], c.get("t0", 0), dtype=c.get("dtype", "f8"))
+        r = fit_transform(c)
         if c["op"] == "rowprim":
-            r = SeriesToPrimitivesRowTransformer(MeanTransformer()).fit(X).transform(X)
             return show_table(np.asarray(r, dtype="float64").tolist())
-        r = SeriesToSeriesRowTransformer(_row_transformers()[c["fn"]]()).fit(X).transform(X)
         return show_panel(nested_out(r))
     return guarded(f)
+
+
+CT["rowprim"] = (_cls("sktime.transformations.panel.compose", "SeriesToPrimitivesRowTransformer"),
+                 lambda c: dict(transformer=_mean_transformer()), _panel_arg("x"), _panel_arg("x"))
+CT["rowser"] = (_cls("sktime.transformations.panel.compose", "SeriesToSeriesRowTransformer"),
+                lambda c: dict(transformer=_row_transformers()[c["fn"]]()), _panel_arg("x"), _panel_arg("x"))
 
 
 def row_oracle(c, out):
@@ -1290,14 +1406,16 @@ def acf_line(c):
     return "C14 acf %s %d %s" % ("T" if c["adjusted"] else "F", acf_nlags(c), show_cell(c["z"]) if c["z"] else "-")
 
 
-def acf_real(c):
-    from sktime.transformations.series.acf import AutoCorrelationTransformer
+def _z_arg(c):
+    return _series(c["z"], c.get("i0", 0), c.get("dtype", "f8"))
 
-    def f():
-        z = _series(c["z"], c.get("i0", 0), c.get("dtype", "f8"))
-        r = AutoCorrelationTransformer(adjusted=c["adjusted"], n_lags=c["n_lags"]).fit_transform(z)
-        return show_oseries(r.tolist())
-    return guarded(f)
+
+def acf_real(c):
+    return guarded(lambda: show_oseries(fit_transform(c).tolist()))
+
+
+CT["acf"] = (_cls("sktime.transformations.series.acf", "AutoCorrelationTransformer"),
+             lambda c: dict(adjusted=c["adjusted"], n_lags=c["n_lags"]), _z_arg, _z_arg)
 
 
 def acf_oracle(c, out):
@@ -1354,12 +1472,13 @@ def cos_line(c):
     return "C14 cos %s %s" % (_fn_table(c["z"]), show_cell(c["z"]))
 
 
-def cos_real(c):
-    from sktime.transformations.series.cos import CosineTransformer
+CT["cos"] = (_cls("sktime.transformations.series.cos", "CosineTransformer"), lambda c: {}, _z_arg, _z_arg)
 
+
+def cos_real(c):
     def f():
-        z = _series(c["z"], c.get("i0", 0), c.get("dtype", "f8"))
-        zt = CosineTransformer().fit_transform(z)
+        z = _z_arg(c)
+        zt = fit_transform(c)
         pre = "" if list(zt.index) == list(z.index) else "INDEX-CHANGED:"
         return pre + show_cell(zt.tolist())
     return guarded(f)
@@ -1404,12 +1523,15 @@ def adapt_line(c):
     return "C14 adapt %s %s %s" % (c["t"], ";".join(show_cell(col) for col in c["zfit"]), ";".join(show_cell(col) for col in c["z"]))
 
 
-def adapt_real(c):
-    from sktime.transformations.series.adapt import TabularToSeriesAdaptor
+CT["adapt"] = (_cls("sktime.transformations.series.adapt", "TabularToSeriesAdaptor"), lambda c: dict(transformer=_sk(c["t"])),
+               lambda c: _frame(c["zfit"], c.get("i0", 0), c.get("dtype", "f8")),
+               lambda c: _frame(c["z"], c.get("i0", 0) + 2, c.get("dtype", "f8")))
 
+
+def adapt_real(c):
     def f():
-        zf, z = _frame(c["zfit"], c.get("i0", 0), c.get("dtype", "f8")), _frame(c["z"], c.get("i0", 0) + 2, c.get("dtype", "f8"))
-        zt = TabularToSeriesAdaptor(_sk(c["t"])).fit(zf).transform(z)
+        z = CT["adapt"][3](c)
+        zt = fit_transform(c)
         pre = "" if list(zt.index) == list(z.index) else "INDEX-CHANGED:"
         cols = [zt.tolist()] if isinstance(zt, pd.Series) else [zt.iloc[:, j].tolist() for j in range(zt.shape[1])]
         return pre + ";".join(show_cell(col) for col in cols)
@@ -1460,7 +1582,7 @@ OPS["adapt"] = dict(line=adapt_line, real=adapt_real, oracle=adapt_oracle, gen=a
 # ----------------------------------------------------------------------------- runner interface
 RULE = ("per transformer: fixed-order exhaustive small scope over shapes / lengths / integer parameters (quick: seed-rotated "
         "stratified slice, thorough: all) + structured random larger panels + malformed configurations; values are random "
-        "dyadic rationals; cell dtype varied over float64 / int64 / int32 / float32 / mixed columns, pad fill values over integer, negative, fractional, NaN. distinct by driver line; non-trivial = the real code returned a result (no error) with at least one value")
+        "dyadic rationals; about a third of the cases run on a re-used transformer object (constructed and fitted with another case's parameters and data, then set_params + fit); cell dtype varied over float64 / int64 / int32 / float32 / mixed columns, pad fill values over integer, negative, fractional, NaN. distinct by driver line; non-trivial = the real code returned a result (no error) with at least one value")
 LEVEL_TEXT = "Lean 4 theorems (model = independent spec, lengths, order) about executable models of the closed-form transformers; models tied to /repo by a differential correspondence check and a property oracle on every run."
 LEVEL_NOTE = "Trusted: Lean kernel; the models' faithfulness to the extent the correspondence exercises it; harness + compat layer; numpy/pandas/scipy/statsmodels/sklearn as black boxes."
 TECHNIQUE = "Lean 4 machine-checked proof over executable models + differential correspondence with the real code + oracle from the property text"
@@ -1496,23 +1618,73 @@ def vary_dtype(rng, c):
         dtype = "f4" if op in F4_OPS else "f8"
     if op == "impute" and any(v is None for v in c["z"]):
         dtype = "f8"                       # NaN needs a float series
+    if op == "imputef":
+        dtype = "f8" if any(v is None for col in c["zs"] for v in col) or dtype == "mix" else dtype
     if dtype in ("i8", "i4", "mix"):
         same = "x" in c and c.get("xfit") is c["x"]
-        for key in ("x", "xfit", "z", "zfit"):
+        for key in ("x", "xfit", "z", "zfit", "zs"):
             if key in c:
                 c[key] = _to_int_values(c[key])
         if same:
             c["xfit"] = c["x"]
-        if op == "impute" and isinstance(c.get("mv"), float) and c["mv"] != int(c["mv"]):
+        if op in ("impute", "imputef") and isinstance(c.get("mv"), float) and c["mv"] != int(c["mv"]):
             c["mv"] = float(int(c["mv"]))
     c["dtype"] = dtype
     return c
+
+
+def _valid_ctor_params(c):
+    """parameters the constructor itself would reject cannot be reached through set_params the same way"""
+    if c["op"] == "interp":
+        L = c["length"]
+        return isinstance(L, int) and not isinstance(L, bool) and L >= 1
+    return True
+
+
+def add_history(rng, cases, share=0.35):
+    """object history for every transformer: `hist` = another generated case of the same transformer; the object
+    is constructed and used as in that case, then set_params(<this case>) + fit(<this case's data>) (see `obtain`)"""
+    by_op = {}
+    for c in cases:
+        by_op.setdefault(c["op"], []).append(c)
+    for c in cases:
+        pool = by_op[c["op"]]
+        if rng.random() < share and len(pool) > 1 and _valid_ctor_params(c):
+            h = pool[rng.randrange(len(pool))]
+            if h is not c:
+                c["hist"] = {k: v for k, v in h.items() if k not in ("hist", "ivs_fitted")}
+    return cases
+
+
+def history_cases(tier, rng):
+    """aimed at state kept from an earlier fit: same object fitted on a panel with other lengths / other parameters"""
+    cases = []
+    for _ in range(40 if tier == "quick" else 600):
+        nc = rng.randrange(1, 3)
+        a, b = rng.randrange(1, 9), rng.randrange(1, 9)
+        xa = rand_panel(rng, [[rng.randrange(a, a + 4) for _ in range(nc)] for _ in range(rng.randrange(1, 4))])
+        xb = rand_panel(rng, [[rng.randrange(b, b + 4) for _ in range(nc)] for _ in range(rng.randrange(1, 4))])
+        ma = min(len(s) for i in xa for s in i)
+        mb = min(len(s) for i in xb for s in i)
+        lo_h, lo_c = rng.choice([None, None, rng.randrange(0, ma + 1)]), rng.choice([None, None, rng.randrange(0, mb + 1)])
+        cases.append({"op": "trunc", "kind": "S", "lower": lo_c, "upper": None, "xfit": xb, "x": xb, "t0": 0,
+                      "hist": {"op": "trunc", "kind": "S", "lower": lo_h, "upper": None, "xfit": xa, "x": xa, "t0": 0}})
+        pl_h, pl_c = rng.choice([None, None, ma + 5]), rng.choice([None, None, mb + 5 + rng.randrange(0, 3)])
+        cases.append({"op": "pad", "kind": "S", "pad_length": pl_c, "fill": rng.choice(FILLS), "xfit": xb, "x": xb, "t0": 0,
+                      "hist": {"op": "pad", "kind": "S", "pad_length": pl_h, "fill": 0.0, "xfit": xa, "x": xa, "t0": 0}})
+        n1, n2 = rng.randrange(2, 13), rng.randrange(2, 13)
+        u1, u2 = rand_panel(rng, [[n1]] * 2), rand_panel(rng, [[n2]] * 2)
+        cases.append({"op": "iseg", "kind": "S", "intervals": rng.randrange(1, n2 // 2 + 1), "xfit": u2, "x": u2, "t0": 0,
+                      "hist": {"op": "iseg", "kind": "S", "intervals": rng.randrange(1, n1 // 2 + 1), "xfit": u1, "x": u1, "t0": 0}})
+    return cases
 
 
 def gen_cases(tier, rng):
     cases = []
     for op in OPS:
         cases.extend(vary_dtype(rng, c) for c in OPS[op]["gen"](tier, rng))
+    add_history(rng, cases)
+    cases.extend(history_cases(tier, rng))
     return cases
 
 
@@ -1525,7 +1697,11 @@ def run_real(c):
 
 
 def oracle(c, out):
-    return OPS[c["op"]]["oracle"](c, out)
+    fails = OPS[c["op"]]["oracle"](c, out) or []
+    if c.get("hist"):
+        fails = [(k, m + "  [re-used object: built and used as in `hist`, then set_params(this case) + fit; a fresh object must give the same]")
+                 for k, m in fails]
+    return fails
 
 
 def nontrivial(c, out):
@@ -1537,6 +1713,7 @@ def features(c, out):
     if "kind" in c:
         f.append(c["op"] + ":kind=" + c["kind"])
     f.append(c["op"] + ":dtype=" + c.get("dtype", "f8"))
+    f.append(c["op"] + (":history" if c.get("hist") else ":fresh"))
     if c["op"] == "pad":
         f.append("pad:fill=" + ("nan" if c["fill"] is None else "int" if c["fill"] == int(c["fill"]) else "frac"))
     f.append(c["op"] + (":" + out if out.startswith("E:") else ":ok"))
@@ -1547,6 +1724,8 @@ def features(c, out):
 
 def shrink(c):
     """smaller cases: drop instances, drop columns, shorten cells, simplify numbers"""
+    if c.get("hist"):
+        yield {k: v for k, v in c.items() if k != "hist"}
     if c.get("dtype") in ("mix", "i4"):
         yield dict(c, dtype="i8")
     for key in ("x", "xfit"):
